@@ -41,6 +41,15 @@ def tus(tier, seed):
         body += '}\n'
         comp = 'clang++' if (tier == 'thorough' and (i // per) % 4 == 3) else 'g++'
         res.append(dict(name='C11_%d' % (i // per), src=body, compiler=comp))
+    # construction from floating point (rounding conversion + overflow check)
+    FT = {'f32': 'float', 'f64': 'double', 'f80': 'long double'}
+    fc = [('nrst', 'sat', 5, 0, 'f64'), ('nrst', 'sat', 31, 0, 'f32'), ('nrst', 'thr', 60, 0, 'f64'), ('tpi', 'sat', 10, -4, 'f32'),
+          ('ninf', 'trp', 16, -8, 'f64'), ('nat', 'sat', 20, 3, 'f32'), ('nrst', 'sat', 24, -12, 'f80'), ('nrst', 'trp', 8, 0, 'f32')]
+    body = '#include "%s"\nint main(){ install(); Rng rng(seed_from_env()+777);\n' % (__file__.replace('.py', '.h'))
+    for (r, o, d, e, f) in fc:
+        body += '  fromf<%s, %s, %d, %d, %s>(rng);\n' % (RT[r], OT[o], d, e, FT[f])
+    body += '}\n'
+    res.append(dict(name='C11_fromf', src=body, compiler='g++'))
     return res
 
 
